@@ -283,3 +283,15 @@ func (sp *SpecPrelude) closure(used map[string]bool, hide map[string]bool) []*sp
 	}
 	return out
 }
+
+// isDeclared: name is introduced by declare-fun (not a define-fun macro) in the prelude
+func (sp *SpecPrelude) isDeclared(name string) bool {
+	for _, f := range sp.forms {
+		for _, d := range f.defines {
+			if d == name {
+				return strings.HasPrefix(f.text, "(declare-fun")
+			}
+		}
+	}
+	return false
+}
